@@ -72,6 +72,21 @@ def run(chk):
                     if rng.chance(1, 2):
                         case["env"][ep] = None
             runner.run_case(case)
+        # the host closes its side after a response; a further request on the same client connection either gets no relay at all or
+        # is relayed with the proxy's own headers like any other (client-supplied copies never survive)
+        for k in range(4 if chk.tier == "quick" else 40):
+            c1 = pipegen.gen_case(rng, callers, st, spoof=False, dest_label="imds", with_key=True)
+            c2 = pipegen.gen_case(rng, callers, st, spoof=True, dest_label="imds", with_key=True)
+            for c_ in (c1, c2):
+                for ep in ("ws", "imds", "hostga"):
+                    c_["env"][ep] = None
+            c1["caller"] = callers.caller(0, "curl", True)
+            c1["req"] = {"method": "GET", "target": "/metadata/instance?first=%d" % k, "headers": [(b"Host", b"h")], "body": None, "chunked": None}
+            c2["env"] = c1["env"]
+            c2["req"]["headers"] = list(c2["req"]["headers"]) + [(b"x-ms-azure-host-authorization", b"Azure-HMAC-SHA256 client-guid client-sig")]
+            if c2["req"]["target"] == "/provision" or ".." in c2["req"]["target"]:
+                c2["req"]["target"] = "/metadata/instance?second=%d" % k
+            runner.run_after_host_close(c1, c2, oracle, chk.count)
         # a keep-alive connection that stays open for a while: the date header of a later request is the time of THAT request
         for k in range(2 if chk.tier == "quick" else 12):
             case = pipegen.gen_case(rng, callers, st, spoof=True, dest_label="imds", with_key=True)
